@@ -125,8 +125,14 @@ fn c01_build(cfg: &[u16]) -> Built {
             }
             c.channels.push(ch);
             for i in 0..users {
-                if s.chance(55) {
+                if i == 0 || s.chance(55) {
                     setup.push((format!("n{}", i), "JOIN &l0".into()));
+                }
+            }
+            // ranks granted by MODE on top of (or instead of) the configured ones
+            for i in 1..users {
+                if s.chance(40) {
+                    setup.push(("n0".into(), format!("MODE &l0 +{} n{}", ['o', 'h', 'v', 'a', 'o'][s.pick(5)], i)));
                 }
             }
         }
